@@ -75,6 +75,12 @@ def run_replay(prop, path):
 
     with open(path) as f:
         rep = json.load(f)
+    pre = rep.get("prelude")
+    if pre:
+        # state shared between System objects of one interpreter: the sessions
+        # that ran before in the same worker are part of the schedule
+        for i in pre["indices"]:
+            execute(prop, seed=pre["seed"], idx=i, tier=pre["tier"])
     res = execute(prop, ops=rep["ops"], cfg=rep.get("cfg"), enabled=set(rep.get("enabled", [prop])))
     if res["harness"]:
         print("HARNESS during replay:", res["harness"])
@@ -230,6 +236,24 @@ def run_check(args):
         import subprocess
 
         p = subprocess.run([sys.executable, os.path.join(VERIF, "simcheck.py"), "--property", prop, "--replay", replay_path], capture_output=True, text=True, timeout=600)
+        if not (p.returncode == 1 and "REPRODUCED" in p.stdout):
+            # not reproducible on its own: was it prepared by the sessions that ran
+            # before it in the same interpreter (state shared between Systems)?
+            hc = int((r.get("cfg") or {}).get("hash_class", 0))
+            same = sorted(x["idx"] for x in results if int((x.get("cfg") or {}).get("hash_class", 0)) == hc and x["idx"] < r["idx"])
+            mine = [i for i in same if (r["idx"] - i) % max(1, workers // max(1, len(classes))) == 0]
+            for k in (1, 3, 10, len(mine)):
+                if not mine:
+                    break
+                rep["ops"] = ops
+                rep["prelude"] = {"seed": args.seed, "tier": tier, "indices": mine[-k:]}
+                rep["note"] = "reproduces only after the listed earlier sessions ran in the same interpreter: some state is shared between System objects"
+                with open(replay_path, "w") as f:
+                    json.dump(rep, f, indent=1, default=str)
+                p = subprocess.run([sys.executable, os.path.join(VERIF, "simcheck.py"), "--property", prop, "--replay", replay_path], capture_output=True, text=True, timeout=900)
+                if p.returncode == 1 and "REPRODUCED" in p.stdout:
+                    mops = ops
+                    break
         if p.returncode == 1 and "REPRODUCED" in p.stdout:
             print("violation: clause=%s run=%d step=%s ops=%d (from %d)" % (v["clause"], r["idx"], rep["step"], len(mops), len(ops)))
             print("detail:", rep["detail"])
